@@ -14,7 +14,9 @@ import (
 	"github.com/dominant-strategies/go-quai/core/state"
 	"github.com/dominant-strategies/go-quai/core/types"
 	"github.com/dominant-strategies/go-quai/core/vm"
+	"github.com/dominant-strategies/go-quai/crypto"
 	"github.com/dominant-strategies/go-quai/params"
+	"github.com/holiman/uint256"
 
 	"verifharness/hlib"
 )
@@ -209,6 +211,127 @@ func evmCases(c *ctx, only string) {
 		}
 		if gone != paid {
 			c.rep.Fail("f9-lockup-claim-reverted/"+sh, fmt.Sprintf("lockup record gone=%v but payout ETXs in cache=%d (record before %s, after %s; deleted-hashes=%d undo-map=%d)", gone, obs.ETXs, obs.LockupBefore, obs.LockupInDB, obs.DelHashes, obs.DelMap), cj)
+		}
+		c.rep.Nontrivial("evm|" + sh)
+	}
+}
+
+// ---------- contract creation frames ----------
+// A creation whose init code writes storage and receives an endowment, then
+//   "create-ok"          returns 1 byte of code
+//   "create-revert"      REVERTs
+//   "create-codestore-oog" returns 10000 bytes with too little gas for the code deposit
+// Property: a creation that ends in failure leaves no account, no storage, no moved value.
+
+type createObs struct {
+	Err      int // 0 ok, 1 reverted, 2 code-store out of gas, 3 other
+	Exists   bool
+	Nonce    uint64
+	Balance  string
+	Slot     string
+	CallerBal string
+}
+
+func initCode(kind string) []byte {
+	c := []byte{byte(vm.PUSH1), 7, byte(vm.PUSH1), 1, byte(vm.SSTORE)}
+	switch kind {
+	case "create-ok":
+		c = append(c, byte(vm.PUSH1), 1, byte(vm.PUSH1), 0, byte(vm.RETURN))
+	case "create-revert":
+		c = append(c, byte(vm.PUSH1), 0, byte(vm.PUSH1), 0, byte(vm.REVERT))
+	case "create-codestore-oog":
+		c = append(c, byte(vm.PUSH2), 0x27, 0x10, byte(vm.PUSH1), 0, byte(vm.RETURN)) // RETURN(0, 10000)
+	}
+	return c
+}
+
+func runCreateCase(kind string) (obs createObs, what string) {
+	vm.InitializePrecompiles(loc)
+	raw := rawdb.NewMemoryDatabase(logger)
+	s := newState(types.EmptyRootHash, state.NewDatabase(raw))
+	s.ConfigureAccessListChecks(false)
+	origin := mkAddrFull(0x55)
+	oi, _ := origin.InternalAndQuaiAddress()
+	s.SetBalance(oi, big.NewInt(1000))
+	s.SetNonce(oi, 1)
+	blockCtx := vm.BlockContext{
+		CanTransfer: core.CanTransfer, Transfer: core.Transfer,
+		GetHash:            func(uint64) common.Hash { return common.Hash{} },
+		CheckIfEtxEligible: func(common.Hash, common.Location) bool { return true },
+		PrimaryCoinbase:    origin, GasLimit: 30000000,
+		BlockNumber:        new(big.Int).SetUint64(params.MaxCodeSizeForkHeight + 10),
+		Time:               big.NewInt(1700000000), Difficulty: big.NewInt(1000000), BaseFee: big.NewInt(1),
+		QuaiStateSize:       new(big.Int).Lsh(big.NewInt(1), 20),
+		PrimeTerminusNumber: params.ShaEquivalentDifficultyForkBlock + 1,
+	}
+	txCtx := vm.TxContext{Origin: origin, GasPrice: big.NewInt(1), Hash: common.BytesToHash([]byte{0xc1, 0x3})}
+	evm := vm.NewEVM(blockCtx, txCtx, s, &params.ChainConfig{ChainID: big.NewInt(1), Location: loc}, vm.Config{}, nil)
+	code := initCode(kind)
+	var salt *uint256.Int
+	var addr common.Address
+	for i := uint64(0); i < 100000; i++ {
+		sl := uint256.NewInt(i)
+		a := crypto.CreateAddress2(origin, sl.Bytes32(), crypto.Keccak256(code), loc)
+		if _, err := a.InternalAndQuaiAddress(); err == nil {
+			salt, addr = sl, a
+			break
+		}
+	}
+	if salt == nil {
+		return obs, "no in-scope create2 address found"
+	}
+	var err error
+	gas := uint64(400000) + params.CallNewAccountGas(blockCtx.QuaiStateSize)
+	p := safe(func() { _, _, _, _, err = evm.Create2(vm.AccountRef(origin), code, gas, big.NewInt(5), salt) })
+	if p {
+		return obs, "panic"
+	}
+	switch {
+	case err == nil:
+		obs.Err = 0
+	case err == vm.ErrExecutionReverted:
+		obs.Err = 1
+	case err == vm.ErrCodeStoreOutOfGas:
+		obs.Err = 2
+	default:
+		obs.Err = 3
+		what = err.Error()
+	}
+	ia, _ := addr.InternalAndQuaiAddress()
+	obs.Exists = s.Exist(ia)
+	obs.Nonce = s.GetNonce(ia)
+	obs.Balance = s.GetBalance(ia).String()
+	obs.Slot = s.GetState(ia, common.BytesToHash([]byte{1})).Big().String()
+	obs.CallerBal = s.GetBalance(oi).String()
+	return obs, what
+}
+
+var createShapes = []string{"create-ok", "create-revert", "create-codestore-oog"}
+
+func createCases(c *ctx, only string) {
+	for i, sh := range createShapes {
+		if only != "" && sh != only {
+			continue
+		}
+		obs, what := runCreateCase(sh)
+		c.rep.Evaluations++
+		c.rep.Count("evm:" + sh)
+		id := 900100 + i
+		cj := EvmCase{ID: id, Shape: sh, Evm: true}
+		c.rep.Note(fmt.Sprintf("evm %s: err=%d exists=%v nonce=%d balance=%s slot1=%s callerBalance=%s %s", sh, obs.Err, obs.Exists, obs.Nonce, obs.Balance, obs.Slot, obs.CallerBal, what))
+		if what == "panic" || obs.Err == 3 || what != "" {
+			c.rep.Fail("evm/create-harness", "creation scenario did not run: "+what, cj)
+			continue
+		}
+		trace := obs.Exists || obs.Slot != "0" || obs.CallerBal != "1000"
+		// Coq case: the failure class and whether the frame's effects are still there
+		c.cw.Add(fmt.Sprintf("CO %d %d %s", id, obs.Err, hlib.CoqBool(trace)), cj)
+		c.rep.TracesValidated++
+		if obs.Err != 0 && trace {
+			c.rep.Fail("create-failure-not-reverted/"+sh, fmt.Sprintf("creation failed (class %d) but its effects stay: account exists=%v nonce=%d balance=%s slot1=%s, creator balance %s (was 1000)", obs.Err, obs.Exists, obs.Nonce, obs.Balance, obs.Slot, obs.CallerBal), cj)
+		}
+		if obs.Err == 0 && !trace {
+			c.rep.Fail("create-success-lost", "successful creation left no account", cj)
 		}
 		c.rep.Nontrivial("evm|" + sh)
 	}
